@@ -42,6 +42,12 @@ type VStrs struct {
 	Wrap, WrapField string // element type when the slice holds single-string structs
 }
 
+// VRefs is a slice of pointers to heap objects.
+type VRefs struct {
+	Arr, N Term
+	Elem   string
+}
+
 // VIface is an interface{} value: dynamic type tag + string-like contents.
 type VIface struct {
 	Tag Term
@@ -164,6 +170,9 @@ func valEqualSyntactic(a, b Val) bool {
 		return ok && x.Key == y.Key
 	case VHeapMap:
 		y, ok := b.(VHeapMap)
+		return ok && x == y
+	case VRefs:
+		y, ok := b.(VRefs)
 		return ok && x == y
 	case VSub:
 		y, ok := b.(VSub)
@@ -309,6 +318,9 @@ func (fx *FuncCtx) iteVal(c Term, a, b Val) Val {
 		// same pointer expected
 	case VOpaque:
 		return a
+	case VRefs:
+		y := b.(VRefs)
+		return VRefs{Arr: sIte(c, x.Arr, y.Arr), N: fx.name(sortInt, "mrn", sIte(c, x.N, y.N)), Elem: x.Elem}
 	case VMapRef:
 		switch y := b.(type) {
 		case VMapRef:
